@@ -276,13 +276,35 @@ class RRTRun:
         pl.nearest_neighbors_limit = cfg["k"]
         pl.dmode = cfg["dmode"]
         pl.iterations = cfg["iterations"]
+        # The obstruction set is what the caller DECLARED (own record, by value): the planner's list is the thing under test.
+        # Corners are handed over as lists, as fresh tm objects, or through two scratch tm objects the caller re-uses for every
+        # box and clears afterwards (its own objects: the declared boxes must not follow them)
+        self.declared = []
+        decl = cfg.get("box_decl", "list")
+        scratch = (tm(), tm())
         for L, R in cfg.get("boxes", []):
-            pl.addObstruction(list(L), list(R))
+            if decl == "list":
+                pl.addObstruction(list(L), list(R))
+            elif decl == "tm":
+                pl.addObstruction(tm(list(L) + [0.0, 0.0, 0.0]), tm(list(R) + [0.0, 0.0, 0.0]))
+            else:
+                for i in range(3):
+                    scratch[0][i] = float(L[i])
+                    scratch[1][i] = float(R[i])
+                pl.addObstruction(scratch[0], scratch[1])
+            self.declared.append((tuple(float(x) for x in L), tuple(float(x) for x in R)))
+        if decl == "tm_scratch" and cfg.get("boxes"):
+            for i in range(3):
+                scratch[0][i] = 0.0
+                scratch[1][i] = 0.0
+            self.probes["box_corners_declared_through_reused_objects"] += 1
         if cfg.get("terrain"):
+            n0 = len(pl.obstructions)
             pl.generateTerrain(*cfg["terrain"])
             self.rnd.flush()
+            self.declared += [(pos6(o[0])[:3], pos6(o[1])[:3]) for o in pl.obstructions[n0:]]   # generated, recorded by value
         self.planner = pl
-        self.box_list = [(pos6(o[0])[:3], pos6(o[1])[:3]) for o in pl.obstructions]
+        self.box_list = list(self.declared)
         self.node_list = [self.origin6]
         self.goal = tm(list(cfg["goal"]))
         # group bookkeeping for the `duplicate` script: units of the last generated sample
@@ -296,8 +318,7 @@ class RRTRun:
         if self.cfg["mode"] != "builtin":
             return False
         eps = 1e-6
-        for o in self.planner.obstructions:
-            L, R = pos6(o[0])[:3], pos6(o[1])[:3]
+        for L, R in self.declared:
             lo = [min(L[i], R[i]) + eps for i in range(3)]
             hi = [max(L[i], R[i]) - eps for i in range(3)]
             if all(hi[i] > lo[i] for i in range(3)) and seg_box(a6, b6, lo, hi):
@@ -438,7 +459,9 @@ class RRTRun:
                     # a moved obstacle: same list object, same length
                     pl.obstructions.pop()
                     pl.addObstruction(list(rep[0]), list(rep[1]))
-                    self.box_list = [(pos6(o[0])[:3], pos6(o[1])[:3]) for o in pl.obstructions]
+                    self.declared.pop()
+                    self.declared.append((tuple(float(x) for x in rep[0]), tuple(float(x) for x in rep[1])))
+                    self.box_list = list(self.declared)
                     self.epoch += 1
                     self.probes["obstruction_replaced_between_calls"] += 1
                 for what in extra[ph - 1].get("mutate", ()):
@@ -849,6 +872,7 @@ def gen_trace(seed):
     if mode == "builtin":
         cfg["dmode"] = 1 if r.random() < 0.35 else 0
         cfg["boxes"] = boxes
+        cfg["box_decl"] = r.choice(["list", "list", "tm", "tm_scratch"])
         if r.random() < 0.15:
             # terrain: blocks of xc x yc from z=0.1 up to a drawn height; keep the start pose above it
             xc = r.choice([1.0, 2.0])
